@@ -9,13 +9,14 @@ ASSUME = [
     "one TaskMaster is reused for many traces; every trace ends with a fence, StopTask of every task and an empty fork table",
     "StartTask is never called for a task that is already executing (the task store stops it first); tasks consist of from()|log() chains",
     "concurrent histories depend on the Go scheduler: an observed loss/duplicate is real, absence is a pass (one-sided)",
+    "a task that dies at run time is out of the verdict itself; which later points meet its aborted edge first depends on Go map order (one-sided, repeated)",
     "TLC fingerprint collisions are negligible; the libflux link stub is never executed",
 ]
 
 MODELS = {
-    "quick": ["Routing_quick.cfg"],
+    "quick": ["Routing_quick.cfg", "Routing_dead.cfg"],
     # 2 tasks x 8 shapes, 2 writes, 4 lifecycle calls | 3 tasks | 1 task, 4 writes
-    "thorough": ["Routing_thorough.cfg", "Routing_thorough3.cfg", "Routing_thorough_deep.cfg"],
+    "thorough": ["Routing_thorough.cfg", "Routing_thorough3.cfg", "Routing_thorough_deep.cfg", "Routing_dead.cfg"],
 }
 
 
@@ -92,7 +93,9 @@ def run(sc, tier, seed):
         R.add_model(V.model_check(sc, "Routing", "RoutingMC.tla", cfg, workers=8, timeout=2400))
     # negative controls: the code-shaped model WITHOUT the two repairs must show the defects
     # (forkPoint without per-point de-duplication; StartTask that fails without removing its fork)
-    for cfg, inv in (("Routing_nodedup.cfg", "ExactlyOnce"), ("Routing_nocleanup.cfg", "TableConsistent")):
+    # (and forkPoint that stops at the first failing Collect next to a task that died at run time)
+    for cfg, inv in (("Routing_nodedup.cfg", "ExactlyOnce"), ("Routing_nocleanup.cfg", "TableConsistent"),
+                     ("Routing_stopfirst.cfg", "ExactlyOnce")):
         obs = V.model_check(sc, "Routing", "RoutingMC.tla", cfg, workers=2, timeout=900, expect_violation={inv})
         if obs["violated"] != inv:
             raise V.Broken("%s no longer yields the %s counterexample: the invariant has become vacuous" % (cfg, inv))
@@ -132,7 +135,7 @@ def run(sc, tier, seed):
         raise V.Broken("lifecycle calls did not return (TaskMaster stuck): " + "; ".join(stuck))
     return R.finish("model_checking", ASSUME, {
         "impl_drift": drift, "impl_level_validated": bool(val["accepted"]),
-        "selftest_corruptions_rejected": corrupted, "model_configs": MODELS[tier] + ["Routing_nodedup.cfg, Routing_nocleanup.cfg (expected counterexamples)"]})
+        "selftest_corruptions_rejected": corrupted, "model_configs": MODELS[tier] + ["Routing_nodedup.cfg, Routing_nocleanup.cfg, Routing_stopfirst.cfg (expected counterexamples)"]})
 
 
 def replay(sc, path):
